@@ -24,9 +24,9 @@ struct snode {
 };
 
 enum { S_ADD, S_ADD_UNIQUE, S_ADD_REPLACE, S_REPLACE, S_DEL, S_LOOKUP, S_WALK, S_TRAVERSE, S_COUNT,
-       S_RESIZE, S_DEL_TWICE, S_REPLACE_EINVAL, S_NK };
+       S_RESIZE, S_DEL_TWICE, S_REPLACE_EINVAL, S_STALE, S_NK };
 static const char *const sname[] = { "add", "add_unique", "add_replace", "replace", "del", "lookup", "walk",
-	"traverse", "count", "resize", "del_twice", "replace_einval" };
+	"traverse", "count", "resize", "del_twice", "replace_einval", "stale_handle" };
 
 static struct cds_lfht *ht;
 static const struct flavor_ops *F;
@@ -85,9 +85,16 @@ static int model_count(void)
 
 static void free_cb(struct rcu_head *rh) { free(caa_container_of(rh, struct snode, rh)); }
 
+/* one removed (deleted or replaced-out) node is kept unreclaimed for a while: a stale handle */
+static struct snode *stale;
+
 static void retire(struct snode *s)
 {
 	nodes[s->id] = NULL;
+	if (!stale && (s->id % 3) == 0) {
+		stale = s;
+		return;
+	}
 	if (s->id & 1) {
 		F->call_rcu(&s->rh, free_cb);
 	} else {
@@ -277,6 +284,25 @@ static void run_op(int idx)
 	F->read_unlock();
 	if (victim)
 		retire(victim);
+	if (op->kind == S_STALE && stale) {
+		/* operations through the handle of a node that left the table earlier (by del, replace or add_replace) */
+		struct snode *st = stale;
+		int r2;
+		F->read_lock();
+		if (!cds_lfht_is_node_deleted(&st->n))
+			MISMATCH("op #%d cds_lfht_is_node_deleted() is false for node %d, which was removed or replaced earlier", idx, st->id);
+		r2 = cds_lfht_del(ht, &st->n);
+		if (r2 >= 0)
+			MISMATCH("op #%d cds_lfht_del() of node %d, which had already left the table, returned %d (must be negative)", idx, st->id, r2);
+		F->read_unlock();
+		stale = NULL;
+		if (st->id & 1) {
+			F->call_rcu(&st->rh, free_cb);
+		} else {
+			F->synchronize_rcu();
+			free(st);
+		}
+	}
 }
 
 static void *turn_thread(void *arg)
@@ -364,7 +390,8 @@ void scen_lfht_seq(void)
 		else if (r < 82) op->kind = S_TRAVERSE;
 		else if (r < 87) op->kind = S_COUNT;
 		else if (r < 93) op->kind = S_RESIZE;
-		else if (r < 97) op->kind = S_DEL_TWICE;
+		else if (r < 96) op->kind = S_DEL_TWICE;
+		else if (r < 98) op->kind = S_STALE;
 		else op->kind = S_REPLACE_EINVAL;
 		if (op->kind == S_REPLACE_EINVAL)
 			op->b = rnd(192);	/* which argument is wrong, and which hash bit */
